@@ -474,4 +474,61 @@ theorem lookup_remove_none {cfg : Cfg} {h : Heap} {a sz : Nat} (hi : HInv cfg h)
     have h4 : hasN a (a, sz) = 1 := by unfold hasN; rw [if_pos (by simp; omega)]
     have h5 : hasN a (a, s2) = 1 := by unfold hasN; rw [if_pos (by simp; omega)]
     split at h3 <;> omega
+
+/-- realloc's scan of the free list, when it falls off the end: no chunk directly above ours was
+large enough; the result is the largest `sz` on the list (or the start value) -/
+theorem growScan_inr {fp2 incr : Nat} : ∀ {l : List Chunk} {s s' : Nat}, growScan fp2 incr l s = .inr s' →
+    (∀ c ∈ l, ¬ (c.1 = fp2 ∧ c.2 + 8 ≥ incr)) ∧ s ≤ s' ∧ (∀ c ∈ l, c.2 ≤ s') ∧ (s' = s ∨ ∃ c ∈ l, c.2 = s') := by
+  intro l
+  induction l with
+  | nil => intro s s' h; simp only [growScan, Sum.inr.injEq] at h; subst h; simp
+  | cons c l ih =>
+    intro s s' h
+    simp only [growScan] at h
+    split at h
+    · cases h
+    · rename_i hc
+      obtain ⟨h1, h2, h3, h4⟩ := ih h
+      refine ⟨?_, ?_, ?_, ?_⟩
+      · intro d hd
+        rcases List.mem_cons.1 hd with rfl | hd
+        · exact hc
+        · exact h1 d hd
+      · split at h2 <;> omega
+      · intro d hd
+        rcases List.mem_cons.1 hd with rfl | hd
+        · split at h2 <;> omega
+        · exact h3 d hd
+      · rcases h4 with h4 | ⟨d, hd, h4⟩
+        · split at h4
+          · right; exact ⟨c, by simp, h4.symm⟩
+          · left; exact h4
+        · right; exact ⟨d, by simp [hd], h4⟩
+
+theorem map_remove (a : Nat) : ∀ (l : List Chunk),
+    (remove a l).map (fun c => c.1 + 8) = (l.map (fun c => c.1 + 8)).erase (a + 8) := by
+  intro l
+  induction l with
+  | nil => rfl
+  | cons c r ih =>
+    simp only [remove, List.map_cons, List.erase_cons]
+    by_cases h : c.1 = a
+    · simp [h]
+    · have : ¬ (c.1 + 8 == a + 8) = true := by simp; omega
+      rw [if_neg h, if_neg this, List.map_cons, ih]
+
+theorem lookup_of_mem_addr {a : Nat} : ∀ {l : List Chunk}, a + 8 ∈ l.map (fun c => c.1 + 8) → ∃ s, lookup a l = some s := by
+  intro l
+  induction l with
+  | nil => intro h; simp at h
+  | cons c r ih =>
+    intro h
+    simp only [lookup]
+    by_cases hc : c.1 = a
+    · exact ⟨c.2, by rw [if_pos hc]⟩
+    · rw [if_neg hc]
+      simp only [List.map_cons, List.mem_cons] at h
+      rcases h with h | h
+      · omega
+      · exact ih h
 end Igris.C10
